@@ -246,6 +246,8 @@ def gen_hexital(rng, size, ha_ok=False, life_ok=False, programs=True, enc=None):
             mult = rng.choice([2, 3, 5])
             unit, k = (htf[0], int(htf[1:])) if htf else ("T", rng.choice([1, 5]))
             sp["tf"] = f"{unit}{k * mult}"
+            if rng.random() < 0.25:
+                sp["tf"] = sp["tf"].lower()
         members.append(sp)
     # an indicator fed by another member's reading (a late-starting input), registered after (or before) it
     if rng.random() < 0.3:
